@@ -90,6 +90,31 @@ def load_known():
 
 # ---- obligations --------------------------------------------------------------------------------
 
+def robust_model(ctx, *claims):
+    """After a `sat` for the path condition and `claims`: a model that also keeps clear of the edge of every tolerance
+    comparison made on the path (|a - b| at most half, or at least twice, the tolerance - on the side the first model is
+    on), if there is one; else the first model.  Only the choice of the counterexample changes, never a verdict."""
+    m = ctx.solver.model()
+    tols = ctx.data.get('tolerances') or []
+    if not tols:
+        return m
+    extra = []
+    try:
+        for ad, tol in tols[-400:]:
+            side = m.eval(ad <= tol, model_completion=True)
+            if z3.is_true(side):
+                extra.append(ad <= tol / 2)
+            elif z3.is_false(side):
+                extra.append(ad >= tol * 2)
+        if extra and ctx.check(*(list(claims) + extra), limit_s=7) == 'sat':
+            return ctx.solver.model()
+        # restore the solver's model for callers that read it again
+        ctx.check(*claims, limit_s=7)
+    except z3.Z3Exception:
+        pass
+    return m
+
+
 class Obl:
     """Counts and discharges obligations of one path."""
 
@@ -100,6 +125,9 @@ class Obl:
         self.discharged = 0
         self.inconclusive = 0
         self.failed = []     # (description, z3 model or None)
+
+    UNDECIDED_BUDGET = 12
+    FAILED_ENOUGH = 4
 
     def same_word(self, actual, expected, what):
         """Data movement: `actual` must BE the word `expected` (no arithmetic node in between)."""
@@ -133,15 +161,25 @@ class Obl:
                 return True
         except z3.Z3Exception:
             pass
+        if len(self.failed) >= self.FAILED_ENOUGH:
+            # this path has its counterexamples: further arithmetic obligations are not put to the solver any more
+            self.trivial += 1
+            self.skipped_after_failures = getattr(self, 'skipped_after_failures', 0) + 1
+            return True
+        if self.inconclusive >= self.UNDECIDED_BUDGET:
+            # the solver has given up on this path that often already (typically nonlinear terms a change of the code
+            # brought in): the rest of the path's arithmetic obligations are counted as undecided without asking again
+            self.inconclusive += 1
+            return True
         self.ctx.solver.push()
         self.ctx.solver.set('timeout', 3000)
         try:
-            r = self.ctx.check(ta != te)
+            r = self.ctx.check(ta != te, limit_s=7)
             if r == 'unsat':
                 self.discharged += 1
                 return True
             if r == 'sat':
-                self.failed.append((what + ': %s != %s' % (short(ta), short(te)), self.ctx.solver.model()))
+                self.failed.append((what + ': %s != %s' % (short(ta), short(te)), robust_model(self.ctx, ta != te) if not self.failed else self.ctx.solver.model()))
                 return False
             # nonlinear and undecided: fix every non-payload variable (position ...) to a value the path
             # condition allows; the remaining question is linear in the payload.  A model is a genuine
@@ -156,10 +194,28 @@ class Obl:
                     ta2 = z3.substitute(ta, *subs)
                     te2 = z3.substitute(te, *subs)
                     self.ctx.solver.add(*[a == b for a, b in subs])
-                    r2 = self.ctx.check(ta2 != te2)
+                    r2 = self.ctx.check(ta2 != te2, limit_s=7)
                     if r2 == 'sat':
                         self.failed.append((what + ': %s != %s' % (short(ta), short(te)), self.ctx.solver.model()))
                         return False
+                # still undecided (products / quotients of payload words): keep ONE payload word of the two terms free
+                # and fix all the others to a value the path condition allows - a question in one unknown.  A model is a
+                # genuine counterexample of the full question (it satisfies the whole path condition); no model says
+                # nothing.
+                names = core.consts_of(z3.And(ta == ta, te == te))
+                free = [n for n in names if n.startswith('w_')][:3]
+                for keep in free:
+                    self.ctx.solver.push()
+                    try:
+                        fix = [(e, m.eval(e, model_completion=True)) for n, e in core.consts_of(z3.And(*(self.ctx.pc + [ta == ta, te == te]))).items()
+                               if n.startswith('w_') and n != keep]
+                        self.ctx.solver.add(*[a == b for a, b in fix])
+                        r3 = self.ctx.check(ta != te, limit_s=7)
+                        if r3 == 'sat':
+                            self.failed.append((what + ': %s != %s' % (short(ta), short(te)), self.ctx.solver.model()))
+                            return False
+                    finally:
+                        self.ctx.solver.pop()
             self.inconclusive += 1
             return True
         finally:
@@ -181,7 +237,7 @@ class Obl:
             self.discharged += 1
             return True
         if r == 'sat':
-            self.failed.append((what, self.ctx.solver.model()))
+            self.failed.append((what, robust_model(self.ctx, z3.Not(t)) if not self.failed else self.ctx.solver.model()))
             return False
         self.inconclusive += 1
         return True
@@ -215,8 +271,9 @@ class Valuation:
     def __init__(self, model=None, relevant=None, cast_payload=False, wide_text=False):
         self.model = model
         self.relevant = relevant
-        self.cast_payload = cast_payload
-        self.wide_text = wide_text
+        self.cast_payload = cast_payload or PAYLOAD_MODE == 'cast'
+        self.wide_text = wide_text or PAYLOAD_MODE == 'wide'
+        self.huge = PAYLOAD_MODE == 'huge'
         self.defaults = {}
         self.cache = {}
         self.decls = {}
@@ -244,6 +301,9 @@ class Valuation:
             v = 1.0 + (k % 1000003) / 1048576.0
             if self.cast_payload:
                 v = 16777217.75 + 2 * (k % 4000000)
+            if self.huge:
+                # finite in float64, beyond float32 (AMReX marks covered cells with 1e40)
+                v = (1.0 + (k % 1000003) / 1048576.0) * 1e40
             if self.wide_text:
                 # negative with a three-digit exponent: the longest texts a float64 has (24 characters)
                 v = -(1.0 + (k % 1000003) / 1048576.0) * 1e-112
@@ -570,9 +630,16 @@ def run_cases(report, fn, cases, nproc=None, time_budget=None):
                 r = {'errors': ['case %r: the worker process ended without a result (%s; out of memory or a crash of the interpreter / solver)'
                                 % (case_label(cases[idx]), why)]}
             report.merge_case(r)
-            if time_budget and time.time() - t0 > time_budget and not stop:
+            enough = len(report.violations) >= int(os.environ.get('VERIF_ENOUGH_VIOLATIONS', '6'))
+            if enough and not stop and (running or nxt < len(cases)):
+                # the verdict is settled (reproduced violations): the remaining cases could only add more of them, and a
+                # broken tree can make them arbitrarily slow
+                report.extra['stopped_after_violations'] = len(report.violations)
+                report.extra['cases_not_run'] = len(cases) - nxt + len(running)
+            if ((time_budget and time.time() - t0 > time_budget) or enough) and not stop:
                 report.exhaustive = False
-                report.extra['stopped_on_time_budget'] = True
+                if not enough:
+                    report.extra['stopped_on_time_budget'] = True
                 stop = True
                 for pid in list(running):
                     try:
@@ -651,6 +718,41 @@ def claim(pid, signature):
         return True
     except FileExistsError:
         return False
+
+
+PAYLOAD_MODE = None       # None | 'cast' | 'huge' | 'wide': which concrete numbers unconstrained payload words get in a replay
+PAYLOAD_MODES = (None, 'cast', 'huge', 'wide')
+
+
+def replay_portfolio(make):
+    """make() builds a replay directory from a counterexample.  The encoding leaves element-type conversions and number
+    texts uninterpreted, so whether a counterexample shows on the real code can depend on WHICH numbers the free payload
+    words get: the replay is tried with the default payload first and then with payloads chosen where conversions
+    (integers above 2^24 with a fraction; magnitudes beyond float32) and text widths (24-character numbers) differ.
+    Returns (dir, status, output) of the first payload that reproduces, else of the default one."""
+    global PAYLOAD_MODE
+    first = None
+    try:
+        for mode in PAYLOAD_MODES:
+            PAYLOAD_MODE = mode
+            d = make()
+            t0 = time.time()
+            status, out = run_replay(d)
+            if status == 'reproduced':
+                return d, status, out
+            if first is None:
+                first = (d, status, out)
+                if time.time() - t0 > 45:
+                    return first        # a long replay (a history of many calls): not repeated with other payloads
+            if status == 'error':
+                break
+    finally:
+        PAYLOAD_MODE = None
+    if first[1] != 'reproduced' and PAYLOAD_MODES[-1] is not None:
+        # leave the default-payload replay on disk (the later attempts overwrote the directory)
+        d = make()
+        return (d,) + first[1:]
+    return first
 
 
 def run_replay(d, timeout=600):
